@@ -160,14 +160,14 @@ def case_readback(acc, rname, w):
                 if auth and any(has_dots(t) for t in texts):
                     acc.count("dot_segments_skipped")
                     continue
-                exp = BASE_PATHS[rname]
+                exp = BASE_PATHS[rname.split("~")[0]]
                 for i, t in enumerate(texts):
                     if i != len(texts) - 1:
                         t = t[:-1] if t.endswith("/") else t
                         if t == "":
                             continue
                     exp = exp + "/" + t
-                if not auth and BASE_PATHS[rname] == "" and exp.startswith("/"):
+                if not auth and BASE_PATHS[rname.split("~")[0]] == "" and exp.startswith("/"):
                     exp = exp[1:]
                 got = u.path
             elif comp == "query_pairs":
@@ -260,6 +260,7 @@ def plan(ctx):
                         tasks.append(("checks.C06", "task_accessors", (rname, sp, enc, part, n), b, "a"))
     rb = [n for n in routes.NAMES if routes.ROUTES[n].kind in READBACK_KINDS]
     tasks += sweep.plan_routes("checks.C06", rb, aspaces)
+    tasks += sweep.plan_routes("checks.C06", [n + "~sub" for n in rb if n + "~sub" in routes.ROUTES], [("nF1", 1), ("nX2", 2)])
     ctx.notes["bounds"] = {"unquoter_configs": sorted(ucfg), "unquoter_word_spaces": [(a, k, len(ALPHAS[a])) for a, k, _ in uspaces],
                            "accessor_routes": ctor, "readback_routes": rb, "word_spaces": [s for s, _ in aspaces]}
     return tasks
